@@ -216,6 +216,63 @@ fn server_channel(rep: &mut Report, res: &Resources, ops: &[FeOp]) {
     }
 }
 
+/// Failure encodings the specification defines: a non-zero u64 acknowledgement; for
+/// SET_DEVICE_STATE_FD a u64 whose bits 0-7 are non-zero with bit 8 (no descriptor) set and no
+/// descriptor attached; for CHECK_DEVICE_STATE a non-zero u64.
+fn server_failure_replies(rep: &mut Report, res: &Resources, ops: &[FeOp]) {
+    let mut seen = std::collections::BTreeSet::new();
+    for op in ops {
+        if !op.wire_valid() || !seen.insert(op.name()) || matches!(op, FeOp::SetBackendReqFd) {
+            continue;
+        }
+        let kind = match op {
+            FeOp::SetDeviceStateFd(_) => 1,
+            FeOp::CheckDeviceState => 2,
+            o if !o.has_reply() => 0,
+            _ => continue, // no failure encoding defined for the other reply-bearing requests
+        };
+        let mut rec = Recorder::new();
+        rec.script.features |= VIRTIO_F_PROTOCOL_FEATURES;
+        rec.ret_file = Some(res.ret.try_clone().unwrap());
+        let s = RawSession::new(rec);
+        if !s.negotiate(VIRTIO_F_PROTOCOL_FEATURES, PF_ALL_DEFINED) {
+            eprintln!("MACHINERY FAILURE: raw negotiation failed");
+            std::process::exit(2);
+        }
+        s.server.rec.lock().unwrap().script.fail.insert(op.name());
+        let (rb, rfds) = correct_request(op, F_VERSION | F_NEED_REPLY, res);
+        let (_r, got) = s.roundtrip(&rb, &rfds);
+        rep.evaluations += 1;
+        rep.transitions += 1;
+        let case = json!({"check":"C01","part":"server_failure","op":format!("{op:?}")});
+        // a request the server refuses before the handler (e.g. SET_PROTOCOL_FEATURES dropping
+        // REPLY_ACK) is outside this part
+        if s.server.rec.lock().unwrap().log.is_empty() {
+            rep.outcome("failure:not-dispatched");
+            continue;
+        }
+        let ack_on = !matches!(op, FeOp::SetProtocolFeatures(v) if v & PF_REPLY_ACK == 0);
+        if !ack_on {
+            continue;
+        }
+        let b = &got.bytes;
+        let well_formed = b.len() == 20 && rd32(b, 0) == op.code() && rd32(b, 4) == (F_VERSION | F_REPLY) && rd32(b, 8) == 8 && got.nfds() == 0;
+        let v = if b.len() >= 20 { rd64(b, 12) } else { 0 };
+        let ok = well_formed
+            && match kind {
+                1 => v & 0xff != 0 && v & 0x100 != 0,
+                _ => v != 0,
+            };
+        if ok {
+            rep.outcome("failure:spec-encoding");
+            rep.nontrivial += 1;
+        } else {
+            rep.outcome("failure:differs");
+            rep.violation(&format!("C01:server:failure-reply:{}", op.name()), &format!("{:?} with a failing handler: wrote {:02x?} with {} descriptor(s); the specification prescribes {}", op, b, got.nfds(), if kind == 1 { "a u64 with a non-zero error code in bits 0-7 and bit 8 (no descriptor) set" } else { "a non-zero u64" }), case);
+        }
+    }
+}
+
 // ---- backend-to-frontend channel ---------------------------------------------------------------
 
 fn backend_channel(rep: &mut Report, res: &Resources, ops: &[BpOp]) {
@@ -342,6 +399,7 @@ pub fn run(rep: &mut Report) {
     let gp = gpu_variants(level, rep.seed);
     frontend_channel(rep, &res, &fe);
     server_channel(rep, &res, &fe);
+    server_failure_replies(rep, &res, &fe);
     backend_channel(rep, &res, &bp);
     gpu_channel(rep, &res, &gp);
     coop::disable();
